@@ -494,6 +494,11 @@ macro_rules! strict_ops {
                         assert!(it.len() == 0);
                         ok(Sx::L(out))
                     }
+                    "a_to_dense" => {
+                        let (d, k) = open_hypergraphs::array::vec::to_dense(&d_nats(&a[0])?);
+                        e_pair(e_nats(&d), Sx::N(k))
+                    }
+                    "ops_validate" => e_opt(d_ops(&a[0])?.validate(), |p| e_ops(&p)),
                     "ops_new" => e_opt(
                         OPS::new(SemifiniteFunction(d_arr(&a[0])?), d_ics(&a[1])?, d_ics(&a[2])?),
                         |p| e_ops(&p),
@@ -504,15 +509,30 @@ macro_rules! strict_ops {
                         SemifiniteFunction(d_arr(&a[2])?),
                     )),
                     // ---------------- strict hypergraphs ----------------
-                    "hg_new" => match HG::new(
-                        d_icf(&a[0])?,
-                        d_icf(&a[1])?,
-                        SemifiniteFunction(d_arr(&a[2])?),
-                        SemifiniteFunction(d_arr(&a[3])?),
-                    ) {
-                        Ok(h) => ok(e_hg(&h)),
-                        Err(e) => err(e_invalid_hg(&e)),
-                    },
+                    "hg_new" => {
+                        // `validate` on the raw struct must agree with the checked constructor
+                        let raw = Hypergraph {
+                            s: d_icf(&a[0])?,
+                            t: d_icf(&a[1])?,
+                            w: SemifiniteFunction(d_arr(&a[2])?),
+                            x: SemifiniteFunction(d_arr(&a[3])?),
+                        };
+                        let v = match raw.validate() {
+                            Ok(h) => ok(e_hg(&h)),
+                            Err(e) => err(e_invalid_hg(&e)),
+                        };
+                        let r = match HG::new(
+                            d_icf(&a[0])?,
+                            d_icf(&a[1])?,
+                            SemifiniteFunction(d_arr(&a[2])?),
+                            SemifiniteFunction(d_arr(&a[3])?),
+                        ) {
+                            Ok(h) => ok(e_hg(&h)),
+                            Err(e) => err(e_invalid_hg(&e)),
+                        };
+                        assert!(v == r, "validate and new differ");
+                        r
+                    }
                     "hg_empty" => e_hg(&HG::empty()),
                     "hg_discrete" => e_hg(&HG::discrete(SemifiniteFunction(d_arr(&a[0])?))),
                     "hg_is_discrete" => e_bool(d_hg(&a[0])?.is_discrete()),
@@ -530,10 +550,19 @@ macro_rules! strict_ops {
                         |h| e_hg(&h),
                     )),
                     "hg_is_acyclic" => ok(e_bool(d_hg(&a[0])?.is_acyclic())),
-                    "ohg_new" => match OHG::new(d_ff(&a[0])?, d_ff(&a[1])?, d_hg(&a[2])?) {
-                        Ok(f) => ok(e_ohg(&f)),
-                        Err(e) => err(e_invalid_ohg(&e)),
-                    },
+                    "ohg_new" => {
+                        let raw = OpenHypergraph { s: d_ff(&a[0])?, t: d_ff(&a[1])?, h: d_hg(&a[2])? };
+                        let v = match raw.validate() {
+                            Ok(f) => ok(e_ohg(&f)),
+                            Err(e) => err(e_invalid_ohg(&e)),
+                        };
+                        let r = match OHG::new(d_ff(&a[0])?, d_ff(&a[1])?, d_hg(&a[2])?) {
+                            Ok(f) => ok(e_ohg(&f)),
+                            Err(e) => err(e_invalid_ohg(&e)),
+                        };
+                        assert!(v == r, "validate and new differ");
+                        r
+                    }
                     "ohg_tensor_operations" => ok(e_ohg(&OHG::tensor_operations(d_ops(&a[0])?))),
                     "ohg_singleton" => ok(e_ohg(&OHG::singleton(
                         d_nat(&a[0])?,
@@ -605,7 +634,14 @@ macro_rules! strict_ops {
                     // ---------------- morphisms ----------------
                     "arrow_new" => {
                         let (g, h, w, x) = d_arrow(&a[0])?;
-                        ok(match HypergraphArrow::new(g, h, w, x) {
+                        let (g2, h2, w2, x2) = d_arrow(&a[0])?;
+                        let v = HypergraphArrow { source: g2, target: h2, w: w2, x: x2 }.validate();
+                        let r = HypergraphArrow::new(g, h, w, x);
+                        assert!(
+                            v.as_ref().err().map(|e| format!("{:?}", e)) == r.as_ref().err().map(|e| format!("{:?}", e)),
+                            "validate and new differ"
+                        );
+                        ok(match r {
                             Ok(_) => Sx::L(vec![sym("ok")]),
                             Err(e) => err(sym(&format!("{:?}", e))),
                         })
